@@ -107,11 +107,20 @@ def mutants(repo):
 
 
 def sh(cmd, cwd, timeout, env=None):
+    """run in its own process group and kill the whole group on timeout: a mutant that loops forever inside a test
+    binary must not be left running"""
+    import signal
+    p = subprocess.Popen(cmd, cwd=cwd, stdout=subprocess.PIPE, stderr=subprocess.STDOUT, env=env, start_new_session=True)
     try:
-        p = subprocess.run(cmd, cwd=cwd, stdout=subprocess.PIPE, stderr=subprocess.STDOUT, timeout=timeout, env=env)
-        return p.returncode, p.stdout.decode('utf-8', 'replace')
-    except subprocess.TimeoutExpired as e:
-        return 124, (e.stdout or b'').decode('utf-8', 'replace') + '\n<timeout>'
+        out, _ = p.communicate(timeout=timeout)
+        return p.returncode, out.decode('utf-8', 'replace')
+    except subprocess.TimeoutExpired:
+        try:
+            os.killpg(p.pid, signal.SIGKILL)
+        except ProcessLookupError:
+            pass
+        out, _ = p.communicate()
+        return 124, (out or b'').decode('utf-8', 'replace') + '\n<timeout>'
 
 
 def lane(k, n, limit):
